@@ -151,6 +151,7 @@ type Sched struct {
 	abortWhy   string
 	abortStack string
 	faultAddr  uintptr
+	faulted    bool
 	seq        int64
 	simTime    time.Duration
 	trace      []Seg
@@ -254,6 +255,7 @@ func (s *Sched) Go(name string, fn func()) *Task {
 				msg := fmt.Sprintf("panic in task %s: %v", t.Name, r)
 				if fa, ok := r.(interface{ Addr() uintptr }); ok {
 					s.faultAddr = fa.Addr()
+					s.faulted = true
 					msg = fmt.Sprintf("memory fault in task %s at address %#x", t.Name, fa.Addr())
 				}
 				s.Abort(msg)
@@ -278,6 +280,7 @@ func (s *Sched) Abort(why string) {
 func (s *Sched) AbortReason() string { return s.abortWhy }
 func (s *Sched) AbortStack() string  { return s.abortStack }
 func (s *Sched) FaultAddr() uintptr  { return s.faultAddr }
+func (s *Sched) Faulted() bool       { return s.faulted }
 func (s *Sched) SiteHits(site int) int { return s.siteHits[site] }
 
 // Stamp returns the next global event sequence number.
